@@ -71,6 +71,10 @@ theorem C14cb_accepted (cap fuel : Nat) (h : List Obs) (ha : model.acceptsH cap 
     monC14cb.accepts h = true :=
   acceptedH_satisfies model (fun h => monC14cb.accepts h = true) C14cb_obs cap fuel h ha
 
+theorem C14rc_accepted (cap fuel : Nat) (h : List Obs) (ha : model.acceptsH cap fuel h = true) :
+    monC14rc.accepts h = true :=
+  acceptedH_satisfies model (fun h => monC14rc.accepts h = true) C14rc_obs cap fuel h ha
+
 theorem C14bo_accepted (cap fuel : Nat) (h : List Backoff.Obs) (ha : Backoff.model.accepts cap fuel h = true) :
     Backoff.monC14bo.accepts h = true :=
   accepted_satisfies Backoff.model (fun h => Backoff.monC14bo.accepts h = true) Backoff.C14bo_obs cap fuel h ha
